@@ -79,6 +79,8 @@ type Conn struct {
 	// wroteClose is set to 1 once a close frame has been handed to writeFrame.
 	// No other frame may follow it. Accessed atomically.
 	wroteClose int32
+	// closeFrameDone is closed once the write of that close frame has returned.
+	closeFrameDone chan struct{}
 	// readClose is set to 1 once a close frame from the peer has been read, the
 	// close handshake has taken over reading, or a read has failed. No message can
 	// be read after that. Accessed atomically.
@@ -115,8 +117,9 @@ func newConn(cfg connConfig) *Conn {
 		writeTimeout:    make(chan context.Context),
 		timeoutLoopDone: make(chan struct{}),
 
-		closed:      make(chan struct{}),
-		activePings: make(map[string]chan<- struct{}),
+		closed:         make(chan struct{}),
+		closeFrameDone: make(chan struct{}),
+		activePings:    make(map[string]chan<- struct{}),
 	}
 
 	c.readMu = newMu(c)
